@@ -15,15 +15,22 @@ NOTIFY_EXCEPTIONS = {
 def pred_info(tu, wait):
     """(normalised predicate text, {atom: monotone direction}) of a wait predicate lambda"""
     lam = wait["pred"]
+    negate = False
     if lam is None:
-        return None
-    lf = tu.by_did.get(lam.get("fn"))
-    if lf is None:
-        raise dtable.Undecidable("predicate lambda body not in IR")
-    rets = [x for x in ir.walk(lf.body) if x["k"] == "ReturnStmt"]
-    if len(rets) != 1:
-        raise dtable.Undecidable("%s: predicate lambda with several returns" % lf.loc)
-    e = kids(rets[0])[0]
+        if wait.get("loop_cond") is None:
+            return None
+        # while (!pred) cv.wait(lock): the predicate is the negated loop condition
+        e = wait["loop_cond"]
+        negate = True
+        lf = wait["fn"]
+    else:
+        lf = tu.by_did.get(lam.get("fn"))
+        if lf is None:
+            raise dtable.Undecidable("predicate lambda body not in IR")
+        rets = [x for x in ir.walk(lf.body) if x["k"] == "ReturnStmt"]
+        if len(rets) != 1:
+            raise dtable.Undecidable("%s: predicate lambda with several returns" % lf.loc)
+        e = kids(rets[0])[0]
 
     def atomize(n, run):
         c = match.call_named(n, ("empty",))
@@ -42,7 +49,7 @@ def pred_info(tu, wait):
     atoms = dtable.atoms_of(leaves)
     rows = {}
     for v, l in dtable.table(leaves, None, atoms):
-        rows[tuple(v[a] for a in atoms)] = l["result"]
+        rows[tuple(v[a] for a in atoms)] = (not l["result"]) if negate else l["result"]
     mono = {}
     for i, a in enumerate(atoms):
         up = down = False
@@ -54,7 +61,9 @@ def pred_info(tu, wait):
                 if val and not rows[k2]:
                     down = True
         mono[a] = "up" if up and not down else "down" if down and not up else "both" if up and down else "none"
-    return dtable.describe(e), mono, lf
+    # canonical text of the predicate: its truth table (so `wait(lock, pred)` and `while (!pred) wait(lock)` read the same)
+    text = "{" + ",".join(atoms) + ":" + "".join("1" if rows[k] else "0" for k in sorted(rows)) + "}"
+    return text, mono, lf
 
 
 def field_of_atomic(e):
@@ -104,6 +113,34 @@ def field_writes(fn):
     return out
 
 
+def lambda_always_locked(tu, fns, flows, lam):
+    """a named lambda (auto f = [..]{..};) counts as evaluated under the mutex if each use of the variable is either the
+    predicate argument of a condition-variable wait or a direct call at a point where the mutex is held"""
+    for fn in fns:
+        for x in fn.nodes():
+            if x["k"] == "LambdaExpr" and x.get("fn") == lam.did:
+                par = fn.parent(x)
+                while par is not None and par["k"] not in ("VarDecl", "CompoundStmt"):
+                    par = fn.parent(par)
+                if par is None or par["k"] != "VarDecl":
+                    return False
+                var = par["did"]
+                uses = [y for y in fn.nodes() if y["k"] == "DeclRefExpr" and y["ref"]["id"] == var]
+                if not uses:
+                    return False
+                for u in uses:
+                    q = fn.parent(u)
+                    while q is not None and q["k"] in ("ImplicitCastExpr", "CXXConstructExpr", "MaterializeTemporaryExpr"):
+                        q = fn.parent(q)
+                    if q is not None and "callee" in q and q["callee"]["name"] in ("wait", "wait_for", "wait_until"):
+                        continue
+                    if q is not None and "callee" in q and q.get("op") == "()" and flows[fn.did].held_at(q) is True:
+                        continue
+                    return False
+                return True
+    return False
+
+
 def run(ck):
     ck.explanation = (
         "Lock-state dataflow (engine B) over the CFG of every ThreadPool member: mutex_ held / not held at every element, through RAII guards, "
@@ -133,6 +170,15 @@ def run(ck):
     pred_lambda_ids = set()
     for w in waits:
         fn = w["fn"]
+        if w["pred"] is None and w.get("loop_cond") is not None:
+            text, mono, lf = pred_info(tu, w)
+            preds.setdefault(w["cv"], []).append((text, mono, fn))
+            held = flows[fn.did].held_at(w["node"])
+            if held is not True:
+                ck.violation("NO-BARE-WAIT", fn.qname, "%s:%s:unlocked" % (fn.name, w["cv"]), "wait() is called without holding the mutex", fn.nloc(w["node"]))
+            else:
+                ck.ok("NO-BARE-WAIT", "%s %s" % (fn.qname, w["cv"]), "wait inside `while (!predicate)` with the mutex held: %s" % text)
+            continue
         if w["pred"] is None:
             # bare wait: must sit in a loop re-checking
             par = fn.parent(w["node"])
@@ -161,7 +207,7 @@ def run(ck):
             if x["k"] == "MemberExpr" and match.this_field(x) in GUARDED:
                 n_acc += 1
                 if fn.kind == "lambda":
-                    if fn.did in pred_lambda_ids:
+                    if fn.did in pred_lambda_ids or lambda_always_locked(tu, fns, flows, fn):
                         ck.ok("LOCKSET", "%s @%s" % (fn.qname, fn.nloc(x)), "%s read in a wait predicate (evaluated with the mutex held)" % match.this_field(x), nontrivial=False)
                     else:
                         ck.violation("LOCKSET", fn.qname, "lambda:" + match.this_field(x), "%s accessed in a lambda that is not a wait predicate" % match.this_field(x), fn.nloc(x))
@@ -208,6 +254,21 @@ def run(ck):
     ck.require(len(jobvars) == 1, "worker: local job object not found")
     jv = jobvars[0]
     calls = [x for x in worker.nodes() if "callee" in x and x.get("op") == "()" and kids(x) and ref_of(kids(x)[0]) == jv["did"]]
+    helper = None
+    if not calls:
+        # the invocation may sit in a small helper that receives the job: run_job(job)
+        for x in worker.nodes():
+            if "callee" in x and any(ref_of(a) == jv["did"] for a in kids(x)):
+                cal = tu.by_did.get(x["callee"]["did"])
+                if cal is None or cal.body is None:
+                    continue
+                pidx = [i for i, a in enumerate(kids(x)[(1 if x.get("member_call") else 0):]) if ref_of(a) == jv["did"]]
+                if not pidx or pidx[0] >= len(cal.params):
+                    continue
+                pd = cal.params[pidx[0]]["did"]
+                if any("callee" in y and y.get("op") == "()" and kids(y) and ref_of(kids(y)[0]) == pd for y in cal.nodes()):
+                    calls.append(x)
+                    helper = cal
     ck.require(len(calls) == 1, "worker: job invocation not found")
     call = calls[0]
     if wf.held_at(call) is not False:
@@ -236,7 +297,12 @@ def run(ck):
         if q["k"] == "CXXTryStmt":
             tries.append(q)
         q = worker.parent(q)
-    if not tries:
+    if not tries and helper is not None and any(y["k"] == "CXXTryStmt" for y in helper.nodes()):
+        ck.ok("EXCEPTION-BALANCED", worker.qname, "the job runs inside %s(), whose try block contains nothing but the invocation" % helper.name)
+        tries = None
+    if tries is None:
+        pass
+    elif not tries:
         ck.violation("EXCEPTION-BALANCED", worker.qname, "no-try", "the job is invoked outside any try block: a throwing job kills the worker with busy_ still raised",
                      worker.nloc(call))
     else:
@@ -359,10 +425,16 @@ def run(ck):
                     ck.violation("JOIN-UNLOCKED", fn.qname, fn.name + ":join", "threads are joined while mutex_ is held: the workers need it to leave", fn.nloc(x))
                 else:
                     lp = fn.parent(x)
-                    while lp is not None and lp["k"] != "ForStmt":
+                    while lp is not None and lp["k"] not in ("ForStmt", "CXXForRangeStmt", "WhileStmt"):
                         lp = fn.parent(lp)
                     full = False
-                    if lp is not None:
+                    if lp is not None and lp["k"] == "CXXForRangeStmt":
+                        full = any(match.this_field(y) == "threads_" for y in ir.walk(kids(lp)[0])) if kids(lp) else False
+                        if not full:
+                            full = any(y["k"] == "MemberExpr" and match.this_field(y) == "threads_" for y in ir.walk(lp))
+                    elif lp is not None and lp["k"] == "WhileStmt":
+                        raise dtable.Undecidable("%s: join loop form not understood" % fn.nloc(lp))
+                    elif lp is not None:
                         init, cond, inc, body = match.loop_parts(lp)
                         b = match.binop(cond, ("<", "!="))
                         full = bool(b and match.call_named(b[2], ("size",)) and match.this_field(kids(strip_casts(b[2]))[0]) == "threads_"
